@@ -33,6 +33,10 @@ type ScriptConfig struct {
 	BOM    bool
 	// Fat: one statement of several KiB spread over many lines (a long `in (...)` list).
 	Fat bool
+	// ThresholdLine: one line padded to a length next to a power-of-two buffer size (4 KiB .. 32 KiB);
+	// PadTotal: the whole script padded with a trailing comment to exactly such a size.
+	ThresholdLine int
+	PadTotal      int
 }
 
 // DrawScriptConfig draws a swarm configuration.
@@ -49,6 +53,12 @@ func DrawScriptConfig(r *prng.Rand) ScriptConfig {
 		c.MaxStmts = 0
 	}
 	c.Fat = r.Chance(1, 60)
+	if r.Chance(1, 30) {
+		c.ThresholdLine = []int{4096, 8192, 16384, 32768}[r.Pick([]int{5, 3, 1, 1})] + r.Range(-2, 2)
+	}
+	if r.Chance(1, 30) {
+		c.PadTotal = []int{4096, 8192, 16384}[r.Pick([]int{4, 2, 1})] + r.Range(-1, 1)
+	}
 	c.Exotic = r.Chance(1, 8)
 	c.BOM = r.Chance(1, 50)
 	if r.Chance(1, 25) {
@@ -158,6 +168,10 @@ func render(sc *Script, r *prng.Rand, cfg ScriptConfig) {
 	if cfg.LongLine && len(sc.Stmts) > 0 {
 		longIdx = r.Intn(len(sc.Stmts))
 	}
+	thrIdx := -1
+	if cfg.ThresholdLine > 0 && len(sc.Stmts) > 0 && longIdx < 0 {
+		thrIdx = r.Intn(len(sc.Stmts))
+	}
 	for i, st := range sc.Stmts {
 		switch st.Kind {
 		case KEmpty:
@@ -166,7 +180,16 @@ func render(sc *Script, r *prng.Rand, cfg ScriptConfig) {
 			sb.WriteString(st.Comment)
 			sb.WriteString(l.NL())
 		default:
-			if i == longIdx {
+			if i == thrIdx {
+				// a line of exactly cfg.ThresholdLine bytes (without its terminator): statement on its own line
+				if sb.Len() > 0 && !strings.HasSuffix(sb.String(), "\n") {
+					sb.WriteString(l.NL())
+				}
+				head := "T | where a == \""
+				pad := cfg.ThresholdLine - len(head) - len("\";")
+				sb.WriteString(head + strings.Repeat("y", pad) + "\";" + l.NL())
+				continue
+			} else if i == longIdx {
 				// a line over 64 KiB: a long string literal on the statement's own line
 				if sb.Len() > 0 && !strings.HasSuffix(sb.String(), "\n") {
 					sb.WriteString(l.NL())
@@ -209,6 +232,12 @@ func render(sc *Script, r *prng.Rand, cfg ScriptConfig) {
 		if !strings.HasSuffix(sb.String(), "\n") {
 			sb.WriteString(l.NL())
 		}
+	}
+	if cfg.PadTotal > 0 && sb.Len()+4 < cfg.PadTotal {
+		if !strings.HasSuffix(sb.String(), "\n") {
+			sb.WriteString("\n")
+		}
+		sb.WriteString("//" + strings.Repeat("-", cfg.PadTotal-sb.Len()-3) + "\n")
 	}
 	sc.Bytes = []byte(sb.String())
 }
